@@ -25,7 +25,7 @@ pub const INFO: PropInfo = PropInfo {
         "Vary and the answer to OPTIONS without Access-Control-Request-Method are open",
         "requests whose routing is ambiguous under C01's two readings are not judged",
     ],
-    expected_probes: &["c14.preflight_ok", "c14.preflight_unregistered_method", "c14.preflight_unknown_path", "c14.simple_hit", "c14.simple_404", "c14.simple_500", "c14.credentials_on", "c14.wildcard_origin", "c14.echoed_request_headers", "c14.split_registration", "c14.mounted_route_preflight"],
+    expected_probes: &["c14.preflight_ok", "c14.preflight_unregistered_method", "c14.preflight_unknown_path", "c14.simple_hit", "c14.simple_404", "c14.simple_500", "c14.credentials_on", "c14.wildcard_origin", "c14.echoed_request_headers", "c14.split_registration", "c14.mounted_route_preflight", "c14.empty_allow_list_with_requested_headers"],
 };
 
 #[derive(Clone, Debug, Serialize, Deserialize)]
@@ -84,7 +84,10 @@ fn split_routes(app: &mut AppSpec) -> bool {
 pub fn generate(cfg: &RunCfg, out: &mut Outcome) -> Scenario {
     let origin = if t::chance(1, 3) { "*".to_string() } else { t::pick(&["https://example.com", "http://localhost:3000", "https://a.b.c"]).to_string() };
     let pick_list = || -> Option<Vec<String>> {
-        if t::chance(1, 2) {
+        if t::chance(1, 8) {
+            // configured, with an empty list: nothing is allowed / exposed (not the same as not configured)
+            Some(Vec::new())
+        } else if t::chance(1, 2) {
             let n = 1 + t::draw(3) as usize;
             let mut v: Vec<String> = (0..n).map(|_| t::pick(&HDRS).to_string()).collect();
             v.sort();
@@ -158,6 +161,7 @@ fn build_cors(p: &Policy) -> CORS {
     if let Some(v) = &p.allow_headers {
         let a = arr(v);
         c = match a.len() {
+            0 => c.AllowHeaders([]),
             1 => c.AllowHeaders([a[0]]),
             2 => c.AllowHeaders([a[0], a[1]]),
             _ => c.AllowHeaders([a[0], a[1], a[2]]),
@@ -166,6 +170,7 @@ fn build_cors(p: &Policy) -> CORS {
     if let Some(v) = &p.expose_headers {
         let a = arr(v);
         c = match a.len() {
+            0 => c.ExposeHeaders([]),
             1 => c.ExposeHeaders([a[0]]),
             2 => c.ExposeHeaders([a[0], a[1]]),
             _ => c.ExposeHeaders([a[0], a[1], a[2]]),
@@ -305,7 +310,8 @@ fn execute(sc: &Scenario, out: &mut Outcome) {
         match &sc.policy.expose_headers {
             Some(v) => {
                 let want: BTreeSet<String> = v.iter().cloned().collect();
-                if aceh.len() != 1 || set_of(aceh[0]) != want {
+                let empty_ok = want.is_empty() && aceh.iter().all(|h| set_of(h).is_empty());
+                if !empty_ok && (aceh.len() != 1 || set_of(aceh[0]) != want) {
                     out.violate("policy-headers", format!("{kind0}/expose-headers"), format!("{desc}: Access-Control-Expose-Headers {:?}, expected {:?}", aceh, v));
                     return;
                 }
@@ -368,7 +374,12 @@ fn execute(sc: &Scenario, out: &mut Outcome) {
                     };
                     match want_h {
                         Some(w) => {
-                            if acah.len() != 1 || set_of(acah[0]) != w {
+                            // an empty configured list allows nothing: the header may be empty or absent
+                            let empty_ok = w.is_empty() && sc.policy.allow_headers.is_some() && acah.iter().all(|h| set_of(h).is_empty());
+                            if w.is_empty() && sc.policy.allow_headers.is_some() && r.acrh.is_some() {
+                                out.probe("c14.empty_allow_list_with_requested_headers");
+                            }
+                            if !empty_ok && (acah.len() != 1 || set_of(acah[0]) != w) {
                                 out.violate("preflight", "allow-headers", format!("{desc}: Access-Control-Allow-Headers {:?}, expected {:?}", acah, w));
                                 return false;
                             }
